@@ -17,7 +17,7 @@ Definition cond_ok (cond : string) (ti : N) : bool :=
   else if String.eqb cond "float" then negb (N.land ti 8 =? 0)
   else false.
 Definition row_matches (rf : regfile) (r : movrow) (a b : operand) (an bn ti : N) : bool :=
-  (an =? m_an r) && type_match rf (m_pa r) a && (bn =? m_bn r) && type_match rf (m_pb r) b && cond_ok (m_cond r) ti.
+  ((m_an r =? 0) || (an =? m_an r)) && type_match rf (m_pa r) a && ((m_bn r =? 0) || (bn =? m_bn r)) && type_match rf (m_pb r) b && cond_ok (m_cond r) ti.
 Definition mov_deduce (rf : regfile) (tab : list movrow) (a b : operand) (an bn ti : N) : option string :=
   option_map m_op (List.find (fun r => row_matches rf r a b an bn ti) tab).
 
